@@ -5,7 +5,9 @@ C13: v1 string classifier finds verbatim occurrences exactly — the exact path.
 non-overlapping occurrences of the normalised value; for a token-aligned
 occurrence the repaired token-range loop returns its first and last token, so
 the reported Offset/Extent (TargetRange of that token range, LC/Props/C17)
-delimit exactly the copy.  Registration cannot panic any more because no
+delimit exactly the copy; a value that begins or ends with white space is
+searched for with it, its tokens are looked up without it, and the occurrence
+is reported with it (`exact_reports_occurrence`).  Registration cannot panic any more because no
 regular expression is compiled (by construction of the repaired code; the
 harness registers metacharacter-laden and invalid UTF-8 values).  Confidence 1.0
 for the exact copy rests on go-diff returning a single Equal for equal texts
@@ -49,6 +51,32 @@ theorem exact_token_range_trailing (toks : List Tok) (ho : Ordered toks) (hpos :
 
 example : exactRange [⟨0, 3⟩, ⟨4, 3⟩, ⟨8, 3⟩, ⟨12, 3⟩] 8 11 = (2, 2) := by decide
 example : exactRange [⟨0, 3⟩, ⟨4, 3⟩] 4 8 = (1, 1) := by decide
+
+/-- A value that begins or ends with white space (a text registered with its final newline): when
+the occurrence without that white space is token-aligned — from the offset of token i to the end of
+token j — the loop is run on the trimmed occurrence, returns (i, j), and the reported byte range is
+the occurrence [a, b) itself, white space included (as repaired; before, the range left the white
+space out and the confidence was 1 - 1/|value|, and a leading blank lost the start token). -/
+theorem exact_reports_occurrence (toks : List Tok) (ho : Ordered toks) (hpos : ∀ t ∈ toks, 0 < t.len)
+    (i j : Nat) (ti tj : Tok) (hi : toks[i]? = some ti) (hj : toks[j]? = some tj) (hij : i ≤ j)
+    (a b : Nat) (lohi : Nat × Nat) (ht : lohi = (ti.offset, tj.offset + tj.len)) :
+    exactRange toks lohi.1 lohi.2 = (i, j) ∧
+    exactBytes a b lohi (ti.offset, tj.offset + tj.len) = (a, b) := by
+  subst ht
+  exact ⟨exact_token_range toks ho hpos i j ti tj hi hj hij, by simp [exactBytes]⟩
+
+/-- whatever the token range gives, the reported range ends inside the text if both candidates do -/
+theorem exactBytes_inside (a b n : Nat) (lohi tr : Nat × Nat) (hb : b ≤ n) (ht : tr.2 ≤ n) :
+    (exactBytes a b lohi tr).2 ≤ n := by
+  unfold exactBytes; split <;> simp_all
+
+/-- "x beta of" with the value "beta ": the occurrence [2,7) is trimmed to [2,6), which is token 1,
+and reported as [2,7); white space only stays as it is -/
+example : trimOcc (· == 32) [120, 32, 98, 101, 116, 97, 32, 111, 102] 2 7 = (2, 6) := by decide
+example : exactBytes 2 7 (2, 6) (2, 6) = (2, 7) := by decide
+example : trimOcc (· == 32) [120, 32, 32, 111] 1 3 = (1, 3) := by decide
+/-- a leading blank: " of" at [6,9) of "x beta of" is trimmed to [7,9) -/
+example : trimOcc (· == 32) [120, 32, 98, 101, 116, 97, 32, 111, 102] 6 9 = (7, 9) := by decide
 
 /-- NearestMatch of a string equal to a known value: the shortcut returns one of the values whose
 normalised text equals it (whatever the map order), provided equal texts pass the ratio gate. -/
